@@ -75,6 +75,7 @@ fn dispatch(env: &Env, method: &str, params: &Value) -> Result<Value, (i32, Stri
             }))
         }
         "getbestblockhash" => Ok(json!(env.lock().tip.to_string())),
+        "getblockcount" => Ok(json!(env.lock().height())),
         "getnetworkinfo" => Ok(json!({"version": 250000, "subversion": "/Satoshi:25.0.0/", "protocolversion": 70016})),
         "getblockheader" => {
             let h: BlockHash = params.get(0).and_then(|v| v.as_str()).and_then(|s| s.parse().ok()).ok_or((-8, "bad hash".to_owned()))?;
@@ -242,7 +243,7 @@ impl Teosd {
             ])
             .env_remove("VERIF_CRASH_AT")
             .stdin(Stdio::null())
-            .stdout(Stdio::null())
+            .stdout(if std::env::var("VERIF_TEOSD_LOG").is_ok() { Stdio::inherit() } else { Stdio::null() })
             .stderr(if std::env::var("VERIF_TEOSD_LOG").is_ok() { Stdio::inherit() } else { Stdio::null() })
             .spawn()
             .ok()?;
@@ -597,7 +598,45 @@ pub fn outage_recovery() -> Result<(), (String, String)> {
     if db.trackers.len() != 1 {
         return Err(("teosd:no-recovery:breach-mined-during-the-outage-not-answered".into(), format!("trackers after recovery: {:?}", db.trackers.keys().collect::<Vec<_>>())));
     }
-    drop(rpc2);
+    // once more, and this time nothing is mined while the node is away (the recovering polls find no new tip)
+    rpc2.stop();
+    let t0 = Instant::now();
+    let mut refused = false;
+    while t0.elapsed() < patience(20) {
+        if let Some((503, _)) = reg(2) {
+            refused = true;
+            break;
+        }
+        std::thread::sleep(Duration::from_millis(200));
+    }
+    if !refused {
+        return Err(("teosd:outage-not-noticed:api-keeps-taking-work:second-outage".into(), String::new()));
+    }
+    let rpc3 = {
+        let t1 = Instant::now();
+        loop {
+            if let Some(r) = RpcServer::start_on(env.clone(), port) {
+                break r;
+            }
+            if t1.elapsed() > Duration::from_secs(20) {
+                return Err(("machinery:cannot-rebind-the-node-port".into(), String::new()));
+            }
+            std::thread::sleep(Duration::from_millis(100));
+        }
+    };
+    let t0 = Instant::now();
+    let mut served = false;
+    while t0.elapsed() < patience(30) {
+        if let Some((200, _)) = reg(2) {
+            served = true;
+            break;
+        }
+        std::thread::sleep(Duration::from_millis(200));
+    }
+    drop(rpc3);
+    if !served {
+        return Err(("teosd:no-recovery:api-still-unavailable:node-back-without-a-new-block".into(), "bitcoind has been back for 30 polling intervals (no block was mined meanwhile) and the public API still answers 503".into()));
+    }
     Ok(())
 }
 
